@@ -8,10 +8,25 @@ import os
 import numpy as np
 
 from common import R, fl, relclose
+from common import all_pre_build as pre_build  # noqa: E402,F401  (regenerates Generated/*.lean — here Generated/Setup.lean — from the tested tree)
 
 LEAN_MODULES = ["PyomaVerif.Props.C14", "PyomaVerif.Mutants.C14", "PyomaVerif.Props.C03Split", "PyomaVerif.Props.C14Algs",
                 "PyomaVerif.Mutants.C14Algs", "PyomaVerif.Props.C14Own", "PyomaVerif.Mutants.C14Own"]
+                "PyomaVerif.Mutants.C14Algs", "PyomaVerif.Props.WiringSetup"]
 THEOREMS = [
+    # setup layer read off the source (translate_setup.py -> Generated/Setup.lean), regenerated on every run
+    "PV.WiringSetup.C14_single_stores_from_source",
+    "PV.WiringSetup.C14_multi_stores_from_source",
+    "PV.WiringSetup.C14_stores_after_last_call",
+    "PV.WiringSetup.C14_initial_copy_from_source",
+    "PV.WiringSetup.C14_writers_from_source",
+    "PV.WiringSetup.C14_variant_from_source",
+    "PV.WiringSetup.C14_multiRepaired_from_source",
+    "PV.WiringSetup.C14_invariant_multi_from_source",
+    "PV.WiringSetup.C14_bound_rollback_multi_from_source",
+    "PV.WiringSetup.C14_set_data_from_source",
+    "PV.WiringSetup.C14_add_binds_model",
+    "PV.WiringSetup.C14_single_decimate_model",
     "PV.C14.C14_invariant_single",
     "PV.C14.C14_invariant_multi",
     "PV.C14.C14_duration_single_law",
